@@ -154,11 +154,18 @@ func keyshareChallengeInput(P *Program, R *Report) {
 	}
 	R.decide(rule, kKSResponse+":default-context", "a missing context defaults to 1 (and only then)", okCtx, "", P.Pos(fn.Pos()))
 	// contribs: phi over two append chains
-	phi, ok := a[2].(*ssa.Phi)
+	// (possibly assembled by a helper, which is then examined with its parameters bound to the call's arguments)
+	phi, ok := origin(a[2]).(*ssa.Phi)
 	if !ok {
 		R.und(rule, kKSResponse+":contribs", "contribs is accumulated per element", "not a loop-carried slice: "+desc(a[2]), P.Pos(ch.Pos()))
 		return
 	}
+	if !bindPath(fn, phi.Parent(), 2, func() { keyshareContribsShape(P, R, rule, phi.Parent(), phi, ch) }) {
+		R.und(rule, kKSResponse+":contribs", "contribs is accumulated per element", "assembled in "+FuncKey(phi.Parent())+", which is not reached by static calls", P.Pos(ch.Pos()))
+	}
+}
+
+func keyshareContribsShape(P *Program, R *Report, rule string, fn *ssa.Function, phi *ssa.Phi, ch *ssa.Call) {
 	be := P.bigEval(fn)
 	nChains := 0
 	for _, e := range phi.Edges {
